@@ -20,6 +20,8 @@ CONSTANTS
     MaxPanics = 1000
     FixF2 = TRUE
     FixF3 = TRUE
+    InitEnc = "proto"
+    MaxMigrations = 1000
 VIEW TraceView
 INVARIANTS
     StateIsFullReplay
